@@ -18,7 +18,7 @@ HEADLINE = ['configurations', 'schedules_run', 'instants', 'series_checked', 'la
 ATTR = {'angular position': 'angular_position', 'angular speed': 'angular_speed', 'angular acceleration': 'angular_acceleration', 'torque': 'torque',
         'driving torque': 'driving_torque', 'load torque': 'load_torque', 'tangential force': 'tangential_force', 'bending stress': 'bending_stress',
         'contact stress': 'contact_stress', 'electric current': 'electric_current', 'pwm': 'pwm'}
-SCHEDS = ['run', 'continue', 'stop', 'reset', 'control']
+SCHEDS = ['run', 'continue', 'stop', 'reset', 'control', 'rejected']
 
 
 def floors(tier):
@@ -42,6 +42,10 @@ def matrix():
     for cls in ('spur', 'helical'):
         for s in subsets(('module', 'face_width', 'E')):
             out.append(('idler', cls, s, s, True))
+    full = ('module', 'face_width', 'E')
+    for cur in ('i0', 'imax'):
+        # a motor with only ONE of the two optional currents (the current is then not computable)
+        out += [('pair', 'spur', (), (), cur), ('pair', 'helical', full, full, cur), ('wormpair', 'worm', True, ('module', 'face_width'), cur), ('wormpair', 'wheel', False, (), cur)]
     for orient in ('worm', 'wheel'):
         for diam in (False, True):
             for s2 in subsets(('module', 'face_width')):
@@ -67,7 +71,7 @@ def config_spec(cfg):
     kind = cfg[0]
     cur = cfg[4]
     motor = {'type': 'motor', 'name': 'motor', 'J': GEN.Q('InertiaMoment', 5, 'gcm^2'), 'w0': GEN.Q('AngularSpeed', 2000, 'rpm'), 'Tmax': GEN.Q('Torque', 10, 'mNm'),
-             'i0': GEN.Q('Current', 0.1, 'A') if cur else None, 'imax': GEN.Q('Current', 2, 'A') if cur else None}
+             'i0': GEN.Q('Current', 0.1, 'A') if cur in (True, 'i0') else None, 'imax': GEN.Q('Current', 2, 'A') if cur in (True, 'imax') else None}
     chain = []
     if kind in ('pair', 'idler'):
         _, cls, s1, s2, _ = cfg
@@ -120,6 +124,12 @@ def with_schedule(spec, sched, rng):
         spec['schedule'] = [dict(run, T=GEN.Q('TimeInterval', 0.3, 'ms'))]
     elif sched == 'reset':
         spec['schedule'] = [run, {'op': 'reset'}, {'op': 'reapply'}] + ([{'op': 'newsolver'}] if rng.random() < 0.5 else []) + [run, dict(run, T=GEN.Q('TimeInterval', 0.05, 'ms'))]
+    elif sched == 'rejected':
+        # calls the library rejects while checking their arguments, before, between and after real runs (the first one because
+        # the load function was forgotten): they leave no trace
+        spec['forget_load'] = True
+        spec['schedule'] = [{'op': 'badrun', 'how': 'types'}, run, {'op': 'badrun', 'how': 'dt_ge_T', 'equal': True}, {'op': 'badrun', 'how': 'stop_type'},
+                            {'op': 'run', 'dt': GEN.Q('TimeInterval', 2e-5, 'sec'), 'T': GEN.Q('TimeInterval', 1e-4, 'sec')}, {'op': 'badrun', 'how': 'control_type'}]
     else:
         spec['rules'] = [{'type': 'const', 'start': GEN.Q('Time', 0.025, 'ms'), 'dur': GEN.Q('TimeInterval', 0.03, 'ms'), 'value': 0.5}]
         spec['schedule'] = [run]
@@ -136,6 +146,10 @@ def judge_history(ctx, b, runs, case, label, nontrivial_key=None, judge_cells=Tr
             ctx.count('documented_run_errors')
             return 'documented-error'
         ctx.violation('C17:run-raised', {'exception': exc, 'config': label}, case)
+        return 'bad'
+    ctx.count('rejected_run_calls', getattr(b, 'rejected_runs', 0))
+    if getattr(b, 'rejected_run_effects', None):
+        ctx.violation('C17:rejected-run-left-traces', {'effects': b.rejected_run_effects[:3], 'config': label}, case)
         return 'bad'
     if getattr(b, 'mid_schedule_failures', None):
         ctx.violation('C17:export-or-snapshot-raised-in-mid-schedule', {'failures': b.mid_schedule_failures[:3], 'config': label}, case)
